@@ -92,11 +92,11 @@ def bijection_reparam(ctx):
         ctx.control("C11/BijectionReparam.unwrap/control/at_least_one", lift(pu[0].value) >= 1, pu[0].cond, props, fn=f"{W}.BijectionReparam.unwrap")
 
 
-@family("params11/Affine_Scale_constructors", ["C11", "C05", "C07"])
+@family("params11/Affine_Scale_constructors", ["C11", "C05", "C07", "C02"])
 def affine_scale_ctor(ctx):
     it = ctx.interp
     env11(it)
-    props = ["C11", "C05", "C07"]
+    props = ["C11", "C05", "C07", "C02"]
     loc, scale = ev("loc"), ev("scale")
     state = {}
 
@@ -161,7 +161,10 @@ def affine_scale_ctor(ctx):
             if len(pu) == 1 and pu[0].outcome == "return" and isinstance(pu[0].value, SV):
                 us = pu[0].value
                 shape_ok = us.elem and tuple(us.shape) == tuple(o.shape) and isinstance(o.loc, SV) and o.loc.elem and tuple(o.loc.shape) == tuple(o.shape) and tuple(o.shape) == SHAPE
-                ctx.oblige(f"C05/Affine.__init__[{tagb}]/post/stored_scale_and_loc_have_the_broadcast_shape#{i}", bool(shape_ok), [], props, kind="struct", fn=fnq, replay=dict(kind="c05", cls="Normal", vars={}),
+                # a model-shape guard, not a demand: the leaf contracts (C02/Affine.*) are proved for parameters stored at the full shape; an
+                # Affine that stores them un-broadcast is outside that model (undecided) and the zoo objects Affine(vector loc, scalar scale)
+                # / Affine(loc (1,4), scale (3,1)) decide on the real code whether its log-determinant still counts every element
+                ctx.oblige(f"C05/Affine.__init__[{tagb}]/post/stored_scale_and_loc_have_the_broadcast_shape#{i}", bool(shape_ok), [], props, kind="applicability", fn=fnq, replay=dict(kind="zooB", vars={}),
                            note=f"shape {o.shape}, stored scale shape {us.shape if us.elem else ()}, loc shape {o.loc.shape if isinstance(o.loc, SV) and o.loc.elem else ()}")
 
 
